@@ -54,8 +54,17 @@ class InternalCompiler(Compiler):
             is_temp = sym.name.startswith("__")
             symp_exp = self._symplify_exp(exp)
 
-            # 2.1 Compile the expression
-            iret = self.compile_expr(qc, symp_exp, sym=sym)
+            # 2.1 Compile the expression; the result of a compound expression goes on a new
+            # qubit, never on a recycled ancilla (uncompute_all replays its previous usages)
+            dest = None
+            if (
+                isinstance(symp_exp, (And, Or, Xor, Not))
+                and symp_exp not in self.expqmap
+                and not (isinstance(symp_exp, Not) and symp_exp.args[0] == sym)
+            ):
+                dest = qc.add_ancilla(is_free=False)
+
+            iret = self.compile_expr(qc, symp_exp, dest=dest, sym=sym)
 
             # 2.2 Map iret qubit to the symbol; sym is now (re)defined, so the expressions
             # computed using its old value are not valid anymore
